@@ -17,12 +17,12 @@
 #endif
 char* gp_line; char** gpp_pos; const char* gp_arg;
 int g_len, g_off, g_k, g_w, g_calls, g_tl, g_num, g_added, g_add_same, g_cadded, v_nret, g_scan_end;
-char v_k, v_arg_k, v_arg_end, v_arg_0, v_c0, v_c1, v_c2, v_c3; double v_ret; int g_rec[3];
+char v_k, v_w, v_arg_k, v_arg_end, v_arg_0, v_c0, v_c1, v_c2, v_c3; double v_ret; int g_rec[3];
 char nondet_char(void);
 static void havoc_ghosts(void)
 {
    g_len = nondet_int(); g_off = nondet_int(); g_k = nondet_int(); g_w = nondet_int(); g_tl = nondet_int(); g_num = nondet_int();
-   v_k = nondet_char(); v_arg_k = nondet_char(); v_arg_end = nondet_char(); v_arg_0 = nondet_char();
+   v_k = nondet_char(); v_w = nondet_char(); v_arg_k = nondet_char(); v_arg_end = nondet_char(); v_arg_0 = nondet_char();
    g_add_same = nondet_int(); v_nret = nondet_int();
    v_c0 = nondet_char(); v_c1 = nondet_char(); v_c2 = nondet_char(); v_c3 = nondet_char();
 }
@@ -170,7 +170,7 @@ void h_readInfinity(void) { char* line; int n, off; int* off_out; havoc_ghosts()
 double w_readValue(char* line, int n, int off, int* out)
 __CPROVER_requires(LINE_OK(line, n, off) && HEAD4(line, off) && __CPROVER_is_fresh(out, 3 * sizeof(int)))
 __CPROVER_requires(IS_VALUE(v_c0))                                        /* every call site checks LPFisValue(pos) first */
-__CPROVER_requires(0 <= g_w && g_w < TOKCAP && g_w <= g_len - off && !IS_TOKCHAR(line[off + g_w]))
+__CPROVER_requires(0 <= g_w && g_w < TOKCAP && g_w <= g_len - off && v_w == line[off + g_w] && !IS_TOKCHAR(v_w))
 __CPROVER_requires(GHOST_K(line, off) && g_k < g_len - off && 0 <= g_tl && g_tl <= g_len - off)
 __CPROVER_requires(g_rec[0] == 0)
 __CPROVER_assigns(__CPROVER_object_whole(out), __CPROVER_object_whole(g_rec), v_ret)
